@@ -15,7 +15,7 @@
   "quick": true,
   "step": "S5 probe: review, no prompt appears"
  },
- "detail": "C13/C04: session ['--inline-snapshot=review'] env={} stdin=b'n\\n' approved no trim but: ['- .inline-snapshot/external/8b2446c4dddcf01cb995f71d9dba6df8df478d3a9ed4a5b81dbc1c20a610bcbd.txt (deleted)']\ntest_e.py \u001b[32m.\u001b[0m\u001b[32m                                                              [100%]\u001b[0m\n\n\u2550\u2550\u2550\u2550\u2550\u2550\u2550\u2550\u2550\u2550\u2550\u2550\u2550\u2550\u2550\u2550\u2550\u2550\u2550\u2550\u2550\u2550\u2550\u2550\u2550\u2550\u2550\u2550\u2550\u2550\u2550 inline-snapshot \u2550\u2550\u2550\u2550\u2550\u2550\u2550\u2550\u2550\u2550\u2550\u2550\u2550\u2550\u2550\u2550\u2550\u2550\u2550\u2550\u2550\u2550\u2550\u2550\u2550\u2550\u2550\u2550\u2550\u2550\u2550\u2550\nremoved 1 unused externals\n\n\n\n==================================== PASSES ====================================\n------------ generated xml file: /tmp/bsess-out-k8jq7tbt/junit.xml -------------\n\u001b[36m\u001b[1m=========================== short test summary info ============================\u001b[0m\n\u001b[32mPASSED\u001b[0m test_e.py::\u001b[1mtest_ext\u001b[0m\n\u001b[32m============================== \u001b[32m\u001b[1m1 passed\u001b[0m\u001b[32m in 1.20s\u001b[0m\u001b[32m ===============================\u001b[0m"
+ "detail": "C13/C04: session ['--inline-snapshot=review'] env={} stdin=b'n\\n' approved no trim but: ['- .inline-snapshot/external/8b2446c4dddcf01cb995f71d9dba6df8df478d3a9ed4a5b81dbc1c20a610bcbd.txt (deleted)']\ntest_e.py \u001b[32m.\u001b[0m\u001b[32m                                                              [100%]\u001b[0m\n\n\u2550\u2550\u2550\u2550\u2550\u2550\u2550\u2550\u2550\u2550\u2550\u2550\u2550\u2550\u2550\u2550\u2550\u2550\u2550\u2550\u2550\u2550\u2550\u2550\u2550\u2550\u2550\u2550\u2550\u2550\u2550 inline-snapshot \u2550\u2550\u2550\u2550\u2550\u2550\u2550\u2550\u2550\u2550\u2550\u2550\u2550\u2550\u2550\u2550\u2550\u2550\u2550\u2550\u2550\u2550\u2550\u2550\u2550\u2550\u2550\u2550\u2550\u2550\u2550\u2550\nremoved 1 unused externals\n\n\n\n==================================== PASSES ====================================\n------------ generated xml file: /tmp/bsess-out-3_83hhi0/junit.xml -------------\n\u001b[36m\u001b[1m=========================== short test summary info ============================\u001b[0m\n\u001b[32mPASSED\u001b[0m test_e.py::\u001b[1mtest_ext\u001b[0m\n\u001b[32m============================== \u001b[32m\u001b[1m1 passed\u001b[0m\u001b[32m in 5.86s\u001b[0m\u001b[32m ===============================\u001b[0m"
 }
 """
 
